@@ -343,6 +343,19 @@ func (d *delivery) client(open func() (mpx.Channel, status.Status), p *chanPlan)
 	d.side(noCtx, ch, p, 0, false)
 }
 
+// settlePlans waits until the server sides have received what the client sides sent (frames may
+// still sit in the client's write queue after Send returned); call it before closing a connection.
+func (d *delivery) settlePlans(plans []*chanPlan, dur time.Duration) bool {
+	return Settle(dur, func() bool {
+		for _, p := range plans {
+			if p.closerIsClient && int(p.upRecv.Load()) < len(p.up) {
+				return false
+			}
+		}
+		return true
+	})
+}
+
 // plan draws a channel plan.
 func (d *delivery) plan(r *rng.R, cfg TrafficCfg) *chanPlan {
 	p := &chanPlan{id: d.nextID.Add(1), done: make(chan struct{})}
